@@ -28,7 +28,7 @@ from .. import irsem, rv32
 CODE_BASE = 0x10000
 DATA_BASE = 0x400000
 BUF_BASE = 0x30000000
-HOOK_BASE = 0xE0000000
+HOOK_BASE = 0x8000  # within jal range of the code (externals are called with a direct jal)
 LAYOUT = "MEMORY flash LOCATION=0x%x SIZE=0x300000 { SECTION(code) }\nMEMORY ram LOCATION=0x%x SIZE=0x300000 { SECTION(data) }\n" % (CODE_BASE, DATA_BASE)
 
 
